@@ -188,7 +188,7 @@ def run_mode(prog, mode, n_app, n_re, name, bound, timer):
             fs.files.clear()
             fs.mutations = 0
             # the file's first index: 0, or 1 (not a multiple of the index interval: a file created after a snapshot / rollover)
-            st_box[0] = pick(it, startv, [0, 1]) if mode != "crash" else 0
+            st_box[0] = pick(it, startv, [0, 1]) if mode not in ("crash", "crashapp") else 0
             m = open_log()
             if m is None:
                 return ("violation", "a fresh log file cannot be initialised", [], "init")
@@ -198,7 +198,7 @@ def run_mode(prog, mode, n_app, n_re, name, bound, timer):
                 return ("violation", "the log does not reopen after initialisation", [], "init")
             log = [("first-index", st_box[0])]
             ops = ops_box[0] = [{"op": "open", "first": st_box[0]}, {"op": "patch_interval", "offset": INTERVAL_OFFSET, "value": 2}]
-            if mode == "append":
+            if mode in ("append", "crashapp"):
                 # the file's preallocated length is what init finds on disk; place the preallocation boundary t bytes into the data
                 # area so that records end before / exactly on / across it (at the real scale: 1 MiB steps)
                 t = pick(it, boundv, [None] + BOUNDARY)
@@ -212,7 +212,8 @@ def run_mode(prog, mode, n_app, n_re, name, bound, timer):
                     cover("preallocation boundary inside the scenario")
             ref = []
             base_image = {k: list(v) for k, v in fs.files.items()}
-            fs.journal = [] if mode == "crash" else None
+            crashing = mode in ("crash", "crashapp")
+            fs.journal = [] if crashing else None
             states = [(0, [])]  # (journal length when the step was acknowledged, reference list)
             images = [(list(fs.files["log"]), [])]
             for i in range(n_app):
@@ -229,7 +230,7 @@ def run_mode(prog, mode, n_app, n_re, name, bound, timer):
                 if not ok:
                     return ("violation", "a contiguous append is refused (%s)" % kind, log, "append-refused")
                 ref.append((len(ref), 1, recd["value"]))
-                if mode == "crash":
+                if crashing:
                     states.append((len(fs.journal), list(ref)))
             if mode in ("strip", "crash"):
                 k = pick(it, cutv, list(range(n_app + 1)))
@@ -259,7 +260,7 @@ def run_mode(prog, mode, n_app, n_re, name, bound, timer):
                     cover("re-append after a cut")
                     if mode == "crash":
                         states.append((len(fs.journal), list(ref)))
-            if mode == "crash":
+            if crashing:
                 # crash after any prefix of the journal of file mutations (also in the middle of an operation)
                 journal = fs.journal
                 fs.journal = None
@@ -330,7 +331,8 @@ def run_mode(prog, mode, n_app, n_re, name, bound, timer):
         ob["solver_s"] = round(time.time() - t1, 1)
         ob["sample"] = {"paths_explored": len(paths), "covers": covers, "opaque_symbols": sorted(it.opaque_seen)[:20]}
         need = {"append": ["wrong index refused", "reopened", "preallocation boundary inside the scenario"], "strip": ["cut exactly on an index entry", "cut removes an index entry", "re-append after a cut", "reopened"],
-                "crash": ["crash image reopened", "crash inside an operation"]}[mode]
+                "crash": ["crash image reopened", "crash inside an operation"],
+                "crashapp": ["crash image reopened", "crash inside an operation", "preallocation boundary inside the scenario"]}[mode]
         missing = [c for c in need if not covers.get(c)]
         if viol:
             ob.update({"verdict": "violation", "message": viol["message"], "tags": viol["tags"], "counterexample": viol["model"], "_ops": viol.get("ops")})
@@ -460,6 +462,9 @@ def run(tier, seed, which="C03"):
     if which == "C04":
         obligations.append(run_mode(prog, "crash", n_app, 1, "s04_1_crash_points",
                                     "%d appends, delete from k, 0-1 re-append; a crash after every prefix of the file mutations (write / set_len calls, also inside an operation), then reopen; index interval 2" % n_app, None))
+        obligations.append(run_mode(prog, "crashapp", n_app, 0, "s04_7_crash_at_preallocation_boundary",
+                                    "%d appends (payload length 1-2) into a file whose preallocated length ends 5..25 bytes into the data area (a record ends before / exactly on / across it; at the real scale: 1 MiB steps); "
+                                    "a crash after every prefix of the file mutations (set_len growth, data write, index write), then reopen; index interval 2" % n_app, None))
         obligations.append(creation_crash(prog, "s04_2_crash_during_creation"))
         from . import c04index
         iob = c04index.run(tier, seed)
